@@ -387,9 +387,9 @@ class Prov:
                 c = self.eval(fn, pc[1], env, d)
                 if c == ('const', True) or c[0] == 'unknown':
                     continue
-                out.append(('if', c, pc[2]))
+                out.append(('if', abstract_cond(c), pc[2]))
             elif pc[0] == 'match':
-                out.append(('match', self.eval(fn, pc[1], env, d), pc[2]))
+                out.append(('match', abstract_cond(self.eval(fn, pc[1], env, d)), pc[2]))
         if not any(self._has_rec(c[1]) for c in out):
             self.guard_memo[key] = out
         return out
@@ -1185,6 +1185,25 @@ def pat_may_match(pat, term):
             return False
         return True
     return True
+
+
+GUARD_MAX = 48
+
+
+def abstract_cond(c):
+    """Guards contributed by *where a value was supplied* (call sites, pushes) are only asked "which origins do
+    you depend on": big condition terms are abstracted to the set of origin fields they mention (small ones —
+    direct tests of an option, of a flag — stay exact so their polarity can be read)."""
+    n = 0
+    for _ in subterms(c):
+        n += 1
+        if n > GUARD_MAX:
+            break
+    if n <= GUARD_MAX:
+        return c
+    fs = frozenset(('field', ('*',), s_[2], s_[3]) for s_ in subterms(c) if s_[0] == 'field')
+    ps = frozenset(('param', s_[1], s_[2], s_[3]) for s_ in subterms(c) if s_[0] == 'param')
+    return ('abs', fs | ps)
 
 
 def wrap_conds(conds, value):
